@@ -6,7 +6,7 @@ import (
 	"github.com/olric-data/olric/pkg/storage"
 )
 
-// VerifC18_Snapshot: bytes handed out by Get / Scan / Range never alias the store: mutating them does not
+// VerifC18_Snapshot: bytes and key strings handed out by Get / GetKey / Scan / ScanRegexMatch / Range never alias the store: mutating them does not
 // change what is stored, and later writes, deletes, compaction and table recycling do not change them;
 // buffers passed to Put may be reused.
 func VerifC18_Snapshot() {
@@ -36,36 +36,8 @@ func VerifC18_Snapshot() {
 	}
 	vpAssume(ref[0].present && len(ref[0].val) > 0)
 
-	// obtain the value through one of the read paths
-	var got []byte
-	switch vpChoose("read", 3) {
-	case 0:
-		g, gerr := s.Get(vpHKey(0))
-		vpAssume(gerr == nil)
-		got = g.Value()
-	case 1:
-		cursor := uint64(0)
-		for i := 0; i < 8; i++ {
-			next, serr := s.Scan(cursor, 10, func(x storage.Entry) bool {
-				if x.Key() == vpKeyNames[0] {
-					got = x.Value()
-				}
-				return true
-			})
-			vpAssume(serr == nil)
-			if next == 0 {
-				break
-			}
-			cursor = next
-		}
-	case 2:
-		s.Range(func(hk uint64, x storage.Entry) bool {
-			if hk == vpHKey(0) {
-				got = x.Value()
-			}
-			return true
-		})
-	}
+	got, gotKey := vpReadKey0(s)
+	vpAssert(gotKey == vpKeyNames[0], "read-returns-stored-key")
 	vpAssert(vpBytesEq(got, ref[0].val), "read-returns-stored-value")
 	snap := vpCopyBytes(got)
 
@@ -79,6 +51,106 @@ func VerifC18_Snapshot() {
 			s = vpStep(s, ref, 2, big, size, 2*(pre+steps)+4, 4)
 		}
 		vpAssert(vpBytesEq(got, snap), "returned-bytes-stable")
+		vpAssert(gotKey == vpKeyNames[0], "returned-key-stable")
 	}
+	vpReach("end")
+}
+
+// vpReadKey0 obtains key 0's value and key string through one of the read paths (Get, Scan, Range, GetKey + regular
+// expression scan).
+func vpReadKey0(s *KVStore) ([]byte, string) {
+	var got []byte
+	var gotKey string
+	switch vpChoose("read", 4) {
+	case 0:
+		g, gerr := s.Get(vpHKey(0))
+		vpAssume(gerr == nil)
+		got = g.Value()
+		gotKey = g.Key()
+	case 1:
+		cursor := uint64(0)
+		for i := 0; i < 8; i++ {
+			next, serr := s.Scan(cursor, 10, func(x storage.Entry) bool {
+				if x.Key() == vpKeyNames[0] {
+					got = x.Value()
+					gotKey = x.Key()
+				}
+				return true
+			})
+			vpAssume(serr == nil)
+			if next == 0 {
+				break
+			}
+			cursor = next
+		}
+	case 2:
+		s.Range(func(hk uint64, x storage.Entry) bool {
+			if hk == vpHKey(0) {
+				got = x.Value()
+				gotKey = x.Key()
+			}
+			return true
+		})
+	case 3:
+		// the key alone (what iterators hand out), and the value through the regular expression scan
+		k, kerr := s.GetKey(vpHKey(0))
+		vpAssume(kerr == nil)
+		gotKey = k
+		cursor := uint64(0)
+		for i := 0; i < 8; i++ {
+			next, serr := s.ScanRegexMatch(cursor, "^"+vpKeyNames[0]+"$", 10, func(x storage.Entry) bool {
+				got = x.Value()
+				vpAssert(x.Key() == k, "match-scan-key")
+				gotKey = x.Key()
+				return true
+			})
+			vpAssume(serr == nil)
+			if next == 0 {
+				break
+			}
+			cursor = next
+		}
+	}
+	return got, gotKey
+}
+
+// VerifC18_Recycle: what a read handed out (value bytes and key string) stays intact while the table it came from
+// is emptied by an overwrite, recycled by compaction and reused for other entries: one free step, then a fixed churn
+// (overwrite, compaction to completion, writes of the other key that take the recycled table back into use, with
+// solver-chosen contents and table size).
+func VerifC18_Recycle() {
+	big := vpBound("biglen")
+	size := vpU64("tableSize")
+	vpAssume(size >= 31 && size <= uint64(4*(30+big)))
+	vpIdleNow = false
+	s := vpMkStore(size)
+	ref := make([]vpRef, 2)
+	e := vpMkEntry(0, 1+vpChoose("vlen0", 2)*(big-1))
+	vpAssume(s.Put(vpHKey(0), e) == nil)
+	ref[0] = vpRef{present: true, val: vpCopyBytes(e.Value()), ttl: e.TTL(), ts: e.Timestamp()}
+	if vpChoose("pre", 2) == 1 {
+		s = vpStep(s, ref, 2, big, size, 12, 4)
+		vpAssume(ref[0].present && len(ref[0].val) > 0)
+	}
+	got, gotKey := vpReadKey0(s)
+	vpAssert(gotKey == vpKeyNames[0], "read-returns-stored-key")
+	vpAssert(vpBytesEq(got, ref[0].val), "read-returns-stored-value")
+	snap := vpCopyBytes(got)
+	churn := func(k, vlen int) {
+		x := vpMkEntry(k, vlen)
+		if s.Put(vpHKey(k), x) == nil {
+			ref[k] = vpRef{present: true, val: vpCopyBytes(x.Value()), ttl: x.TTL(), ts: x.Timestamp()}
+		}
+	}
+	churn(0, big)
+	churn(0, 1)
+	vpCompact(s, 12)
+	churn(1, big)
+	churn(1, big)
+	churn(1, 1)
+	churn(0, big)
+	vpAssert(vpBytesEq(got, snap), "returned-bytes-stable")
+	vpAssert(gotKey == vpKeyNames[0], "returned-key-stable")
+	vpCheckStore(s, ref)
 	vpReach("end")
 }
